@@ -16,7 +16,7 @@ import re
 import uuid
 from base64 import decodebytes, encodebytes
 
-from harness.gen import T, Family, LEAF_PY, NODEFAULT
+from harness.gen import T, Family, LEAF_PY, NODEFAULT, td_order, td_is_optional
 
 
 class RefError(Exception):
@@ -198,7 +198,8 @@ def ref_encode(t: T, v, fam: Family, ns):
         return [ref_encode(f.ty, x, fam, ns) for f, x in zip(spec.fields, v)]
     if k == "td":
         spec = fam.get(t.name)
-        return {f.name: ref_encode(f.ty, v[f.name], fam, ns) for f in spec.fields if f.name in v}
+        # required keys first, then the optional keys present (each group in declaration order)
+        return {f.name: ref_encode(f.ty, v[f.name], fam, ns) for f in td_order(spec) if f.name in v}
     raise RefError(f"ref_encode: kind {k}")
 
 
@@ -389,12 +390,15 @@ def ref_decode(t: T, d, fam: Family, ns):
         if not isinstance(d, dict):
             raise RefError("non-mapping for TypedDict")
         out = {}
-        for f in spec.fields:
-            if f.ty.kind == "tuplefix" and not f.ty.args and spec.total:
+        for f in td_order(spec):
+            required = not td_is_optional(spec, f)
+            if f.ty.kind == "tuplefix" and not f.ty.args and required:
                 out[f.name] = ()      # constant position: the key is not read (see tuple positions above)
+            elif f.ty.kind == "none" and required:
+                out[f.name] = None
             elif f.name in d:
                 out[f.name] = ref_decode(f.ty, d[f.name], fam, ns)
-            elif spec.total:
+            elif required:
                 raise RefError(f"missing key {f.name}")
         return out
     raise RefError(f"ref_decode: kind {k}")
